@@ -275,10 +275,10 @@ func c17readonly(p *Prog, r *Report) {
 			owner := fieldOwner(p, fv)
 			if guarded[owner] {
 				// statistics counters of Node are not DAG state
-				if owner == "Node" && (fv.Name() == "syncRequests" || fv.Name() == "syncErrors") {
+				if owner == "Node" && (refName(fv) == "syncRequests" || refName(fv) == "syncErrors") {
 					continue
 				}
-				wbad = append(wbad, owner+"."+fv.Name()+" in "+fnName(w.Fn)+"@"+p.ipos(w.Instr))
+				wbad = append(wbad, owner+"."+refName(fv)+" in "+fnName(w.Fn)+"@"+p.ipos(w.Instr))
 			}
 		}
 	}
@@ -452,12 +452,12 @@ func c17submit(p *Prog, r *Report) {
 				continue
 			}
 			owner := fieldOwner(p, fv)
-			if owner == "core" && fv.Name() == "transactionPool" {
+			if owner == "core" && refName(fv) == "transactionPool" {
 				continue
 			}
 			switch owner {
 			case "Hashgraph", "core", "InmemStore", "BadgerStore", "PeerSetCache", "ParticipantEventsCache", "PendingRoundsCache", "SigPool", "RoundInfo", "RollingIndex", "RollingIndexMap":
-				bad = append(bad, owner+"."+fv.Name()+" in "+fnName(w.Fn))
+				bad = append(bad, owner+"."+refName(fv)+" in "+fnName(w.Fn))
 			}
 		}
 	}
